@@ -289,7 +289,11 @@ def check_exts(_):
 
 
 def _cfgs(seed):
-    return {"M": treeexp.make_cfg("M", seed, "narrow", copies=False, moves=False, max_containers=3, kind="mf", attr_keys=2)}
+    return {
+        "M": treeexp.make_cfg("M", seed, "narrow", copies=False, moves=False, max_containers=3, kind="mf", attr_keys=2),
+        # the same alphabet spelled with another name set (for the default seed: siblings a / ab / abc, one a string prefix of the other)
+        "MP": treeexp.make_cfg("MP", seed + 1, "narrow", copies=False, moves=False, max_containers=3, kind="mf", attr_keys=2),
+    }
 
 
 def run(tier, seed):
@@ -307,6 +311,9 @@ def run(tier, seed):
             else:
                 ud = 2 if len(h) <= 3 else 1
             tasks.append(("M", h, ud))
+        hsp, trp = ih5lib.gen_states(pool, "MP", depth)
+        tr += trp
+        tasks += [("MP", h, 1) for h in hsp]
         res = pool.map("check_stub", tasks, chunk=1, item_deadline=900)
         for t, r in zip(tasks, res):
             if r == parallel.HANG:
@@ -321,14 +328,14 @@ def run(tier, seed):
         if ve:
             violations.append(ve)
     cov = {
-        "states": len(hs),
+        "states": len(hs) + len(hsp),
         "transitions": tr + nup,
         "traces_validated_against_impl": nck,
         "updates_compared": nup,
         "depth": depth,
         "exhaustive": True,
         "samples": [{"history": hs[len(hs) // 2], "update": update_ops(cfgs["M"])[0]}, {"history": hs[-1]}],
-        "rule": f"every deduplicated IH5MFRecord state of the narrow alphabet up to depth {depth} (<=3 containers); stub from newest manifest; "
+        "rule": f"every deduplicated IH5MFRecord state of the narrow alphabet up to depth {depth} (<=3 containers), in two spellings (second one with prefix-related sibling names); stub from newest manifest; "
         "every update history of existence-based ops (set/grp/del/setattr/delattr/require_group) of length 1"
         + (" (2 for records of <=1 op)" if q else " (2 for records of <=3 ops)")
         + " applied via stub and directly; manifest link/skeleton check after every commit; manifest_exts chain X,-,Y,-,{}",
@@ -347,5 +354,5 @@ def replay(data):
     if inp["cfg"] == "-":
         return check_exts(0)
     up = inp.get("update")
-    v, _, _ = check_stub(("M", [list(o) for o in inp["history"]], 1, [list(o) for o in up] if up else []))
+    v, _, _ = check_stub((inp["cfg"] if inp["cfg"] in ("M", "MP") else "M", [list(o) for o in inp["history"]], 1, [list(o) for o in up] if up else []))
     return v
